@@ -132,15 +132,26 @@ def hb_asked(g, old, k, data):
     return g.log[len(old.g.log) + k] == apdu_of(CMD_HEARTBEAT, data)
 
 
-def hb_wiring(result, ud_value, g, old):
+def hb_five_exchanges(result, ud_value, g, old):
     if result[0]:
-        hb = result[1]
         return (frame_n(g, old, 5) and ok(g)
                 and hb_asked(g, old, 0, bytes([1]) + unhex(ud_value)) and hb_asked(g, old, 1, bytes([2]))
-                and hb_asked(g, old, 2, bytes([3])) and hb_asked(g, old, 3, bytes([4])) and hb_asked(g, old, 4, bytes([5]))
-                and hb["pubKey"] == hexs(ans(g, old, 4)[3:]) and hb["message"] == hexs(ans(g, old, 2)[3:])
-                and hb["tweak"] == hexs(ans(g, old, 3)[3:])
-                and hb["signature"]._r == hexs(der_r(ans(g, old, 1)[3:]))
+                and hb_asked(g, old, 2, bytes([3])) and hb_asked(g, old, 3, bytes([4])) and hb_asked(g, old, 4, bytes([5])))
+    return True
+
+
+def hb_fields(result, g, old):
+    if result[0]:
+        hb = result[1]
+        return (hb["pubKey"] == hexs(ans(g, old, 4)[3:]) and hb["message"] == hexs(ans(g, old, 2)[3:])
+                and hb["tweak"] == hexs(ans(g, old, 3)[3:]))
+    return True
+
+
+def hb_signature(result, g, old):
+    if result[0]:
+        hb = result[1]
+        return (hb["signature"]._r == hexs(der_r(ans(g, old, 1)[3:]))
                 and hb["signature"]._s == hexs(der_s(ans(g, old, 1)[3:])))
     return True
 
@@ -159,7 +170,7 @@ class _Heartbeat(Contract):
 
     def pre_hex(ud_value): return is_hex(ud_value)
     requires = [pre_hex]
-    ensures = [hb_wiring, hb_failure]
+    ensures = [hb_five_exchanges, hb_fields, hb_signature, hb_failure]
 
     def x_some(g, old): return frame_some(g, old)
     raises = PROPAGATE(x_some, skip=[ERR_RESULT])
